@@ -83,6 +83,20 @@ def check_case(model, impl, text, stats, generations=3):
     return None, dumps[0]
 
 
+TRICKY = ["-({a}**2)", "-({a}**2)*{b}", "0 - {a}**2/3", "-({a}+{b})**2", "{b}**(-({a}**2))", "-(2**{a}) + {b}", "-({a}**2)*{b}*pi", "-{a}*{b}**2",
+          "{a}/({b}**2) - {a}**2", "-({a}*{b})**2", "1/({a}+{b}) - {a}**2/5", "-(q0**2)*q1", "-(q0**2)/3 + q1", "(0-1)*{a}**3", "-({a}**2)/({b}**2)",
+          "2j*{a} - ({a}**2)*1j", "-(q1**2)*0.5j", "{a}**2**2", "-{a}**2", "(-{a})**3", "-(-{a})**2"]
+
+
+def tricky_text(rng):
+    lines = ["name t", "version 1.0", ""]
+    for _ in range(rng.randint(1, 4)):
+        e = rng.choice(TRICKY)
+        form = rng.choice(["Sgate(%s) | 0", "Dgate(0.5, %s) | [0, 1]", "Rgate(phi=%s) | 2", "BSgate(%s, r=%s) | [1, 0]" ])
+        lines.append(form % ((e,) * form.count("%s")))
+    return "\n".join(lines) + "\n"
+
+
 def run(tier, seed):
     res = Result(PROP, tier, seed)
     rng = random.Random(seed)
@@ -111,7 +125,7 @@ def run(tier, seed):
                 res.extra["stopped_by_time_budget"] = True
                 break
             try:
-                text = gen_text(rng, i)
+                text = tricky_text(rng) if i % 8 == 7 else gen_text(rng, i)
             except Exception:  # noqa: BLE001
                 continue
             try:
